@@ -45,6 +45,11 @@ type Conn struct {
 	latency time.Duration
 	ronce   sync.Once
 	wonce   sync.Once
+
+	// accepted is set for connections handed out by Listener.Accept; conce makes
+	// sure such a connection is counted as closed once.
+	accepted bool
+	conce    sync.Once
 }
 
 // Read reads bytes from connection into b, optionally simulating connection
@@ -117,6 +122,9 @@ func (c *Conn) Close() error {
 	for _, bs := range c.LocalBuckets {
 		bs.ReadBucket.Close()
 		bs.WriteBucket.Close()
+	}
+	if c.accepted {
+		c.conce.Do(c.Listener.conns.Done)
 	}
 	return c.conn.Close()
 }
